@@ -48,6 +48,13 @@ class Protocol(Component):
             else:
                 self.__process_packet(tail)
 
+    @handler('disconnected')
+    def _on_disconnected(self, *args):
+        # (client side, where one protocol outlives its connections:) what was
+        # received of an unfinished packet belongs to the connection that is
+        # gone and must not be glued in front of the next connection's stream
+        self.__buffer = b''
+
     @handler(channel='node_result', priority=100)
     def result_handler(self, event, *args, **kwargs):
         if event.name.endswith('_success'):
